@@ -38,9 +38,6 @@ Lemma ht_ex : forall A T (P : T -> vstate -> Prop) (m : VM A) Q E,
   (forall x, ht (P x) m Q E) -> ht (fun s => exists x, P x s) m Q E.
 Proof. intros A T P m Q E H s [x Hx]. apply (H x). exact Hx. Qed.
 
-(* the frame stack is X / has X at its bottom; no thread has a resumer *)
-Definition stk (X : list cframe) (s : vstate) : Prop := par_ok s /\ vstack s = X.
-Definition estk (X : list cframe) (s : vstate) : Prop := par_ok s /\ exists k, vstack s = k ++ X.
 
 Lemma estk_cons : forall f X s, estk (f :: X) s -> estk X s.
 Proof. intros f X s [H [k E]]. split; [exact H|]. exists (k ++ [f]). rewrite <- app_assoc. exact E. Qed.
@@ -859,4 +856,167 @@ Proof.
   destruct (PCall_mono (mainLoop_nc fuel) (mainLoop fuel) (mainLoop_nc_le fuel) 0 MultRet None (init_vstate p)) as [E|E].
   - rewrite E in H. congruence.
   - rewrite E. reflexivity.
+Qed.
+
+(* ---------- OP_TFORLOOP again: all 42 opcodes under the discipline ---------- *)
+From GL Require Import VMX.WfTieFacts VMX.RunSafeFacts.
+From GL Require VM.WfFacts.
+
+Lemma tri_sd : forall A (m : VM A) X, noob m -> sd m -> tri (stk X) m (fun _ => stk X).
+Proof.
+  intros A m X Hn Hs s H. specialize (Hs X s H). destruct (m s) as [a s1|e s1| |c] eqn:E; auto.
+  eapply Hn. eassumption.
+Qed.
+
+Section TForDisc.
+Variable ml : option nat -> VM unit.
+Variable gf : builtin -> VM Z.
+Hypothesis Hml : forall b, noob (ml b).
+Hypothesis Hgf : forall b, noob (gf b).
+Hypothesis Hdisc : ml_disc ml.
+
+Lemma tforloop_noob_disc : forall cl cf rest inst base,
+  op_of_code (opGetOpCode inst) = Some OP_TFORLOOP ->
+  W.inst_ok (fn_of (cl_proto cl)) (W.tags_of (fn_of (cl_proto cl))) (fr_pc cf - 1) inst = true ->
+  noob_on (stk (cf :: rest)) (exec_op ml gf cl cf inst base).
+Proof.
+  intros cl cf rest inst base Hop H.
+  destruct (fn_of_fields (cl_proto cl)) as [Hcode _].
+  unfold W.inst_ok in H. rewrite Hop in H.
+  apply andb_true_iff in H. destruct H as [_ H]. split_ands.
+  match goal with Hx : W.is_head _ (fr_pc cf - 1 + 1) = true |- _ => pose proof (VM.WfFacts.is_head_range _ _ Hx) as Hr end.
+  rewrite VM.WfFacts.tags_len in Hr. rewrite Hcode in Hr. rewrite plen_eq in Hr.
+  replace (fr_pc cf - 1 + 1) with (fr_pc cf) in Hr by lia.
+  unfold exec_op. rewrite Hop.
+  eapply tri_noob_on with (Q := fun _ _ => True).
+  assert (K : forall A (m : VM A), noob m -> sd m -> tri (stk (cf :: rest)) m (fun _ => stk (cf :: rest)))
+    by (intros; apply tri_sd; assumption).
+  eapply tri_bind; [apply K; [auto with noob|apply sd_reg_settop]|intro].
+  eapply tri_bind; [apply K; [auto with noob|apply sd_reg_get]|intro x2].
+  eapply tri_bind; [apply K; [auto with noob|apply sd_reg_set]|intro].
+  eapply tri_bind; [apply K; [auto with noob|apply sd_reg_get]|intro x1].
+  eapply tri_bind; [apply K; [auto with noob|apply sd_reg_set]|intro].
+  eapply tri_bind; [apply K; [auto with noob|apply sd_reg_get]|intro x0].
+  eapply tri_bind; [apply K; [auto with noob|apply sd_reg_set]|intro].
+  eapply tri_bind; [apply K; [apply (noob_callR ml Hml)|apply (sd_callR ml Hdisc)]|intro].
+  eapply tri_bind; [apply K; [auto with noob|apply sd_reg_get]|intro v].
+  eapply tri_bind with (Q := fun _ _ => True); [|intro; apply tri_noob; noob_tac].
+  destruct (negb (is_nil v)); [|apply tri_noob; auto with noob].
+  eapply tri_bind; [apply K; [auto with noob|apply sd_reg_set]|intro].
+  intros s [_ Hs]. unfold vbind at 1. unfold cur_frame. rewrite Hs.
+  assert (Hn : noob (vdo w <- code_at (cl_proto cl) (fr_pc cf); add_pc (opGetArgSbx w))).
+  { apply noob_bind; [apply code_at_noob; exact Hr|intro; auto with noob]. }
+  destruct ((vdo w <- code_at (cl_proto cl) (fr_pc cf); add_pc (opGetArgSbx w)) s) eqn:E; auto.
+  eapply Hn. eassumption.
+Qed.
+
+(* all 42 opcodes, the hypothesis on the re-entered loop being the discipline *)
+Theorem wf_step_noob_disc_lemma : forall cl cf rest inst base,
+  W.wf_fn (fn_of (cl_proto cl)) = true ->
+  closure_ok cl ->
+  VM.WfFacts.pc_ok (fn_of (cl_proto cl)) (fr_pc cf - 1) ->
+  zth (xp_code (cl_proto cl)) (fr_pc cf - 1) = Some inst ->
+  noob_on (stk (cf :: rest)) (exec_op ml gf cl cf inst base).
+Proof.
+  intros cl cf rest inst base Hwf Hcl Hpc Hz.
+  destruct (op_of_code (opGetOpCode inst)) as [o|] eqn:Hop.
+  - assert (D : o = OP_TFORLOOP \/ o <> OP_TFORLOOP) by (destruct o; ((left; reflexivity) || (right; discriminate))).
+    destruct D as [->|Hne].
+    + destruct (VM.WfFacts.head_inst_ok _ _ Hwf Hpc) as [w [Hw Hok]].
+      destruct (fn_of_fields (cl_proto cl)) as [Hcode _].
+      rewrite Hcode in Hw. rewrite pzth_eq in Hw. rewrite Hz in Hw. inversion Hw; subst w.
+      apply tforloop_noob_disc; assumption.
+    + intros s c _ E. eapply (wf_step_noob_lemma ml gf cl cf inst base o); eassumption.
+  - intros s c _ E. unfold exec_op in E. rewrite Hop in E. inversion E. reflexivity.
+Qed.
+
+End TForDisc.
+
+(* ---------- the host functions of the cut machine do not fault if the loop they re-enter does not ---------- *)
+Section NoobHost.
+Variable ml : option nat -> VM unit.
+Hypothesis Hml : forall b, noob (ml b).
+
+Hint Resolve noob_callR noob_Call : noob.
+
+Lemma noob_PCall : forall na nr h, noob (PCall ml na nr h).
+Proof.
+  intros na nr h s c E. unfold PCall in E.
+  destruct (Call ml na nr s) as [u s'|e s0| |c0] eqn:EC; try discriminate.
+  - destruct h as [h|]; [|discriminate].
+    destruct ((vdo _ <- reg_push h; vdo _ <- reg_push e; vdo _ <- Call ml 1 1; vdo t <- reg_top; reg_get (t - 1))
+                (set_nccalls (cur_nccalls s) s0)) as [hv s''|e2 s''| |c2] eqn:EH; try discriminate.
+    inversion E; subst c2.
+    assert (Hn : noob (vdo _ <- reg_push h; vdo _ <- reg_push e; vdo _ <- Call ml 1 1; vdo t <- reg_top; reg_get (t - 1))) by noob_tac.
+    eapply Hn. eassumption.
+  - inversion E; subst c0. eapply (noob_Call ml Hml). eassumption.
+Qed.
+
+Lemma noob_bi_args : noob bi_args.
+Proof. unfold bi_args. noob_tac. Qed.
+Lemma noob_bi_ret : forall vs, noob (bi_ret vs).
+Proof. intros. unfold bi_ret. noob_tac. Qed.
+Lemma noob_badarg : forall A, noob (@badarg A).
+Proof. intros. unfold badarg. auto with noob. Qed.
+Hint Resolve noob_bi_args noob_bi_ret noob_badarg noob_PCall : noob.
+Lemma noob_v_opt_int : forall v d, noob (v_opt_int v d).
+Proof. intros. unfold v_opt_int. noob_tac. Qed.
+Lemma noob_v_border : forall t, noob (v_border t).
+Proof. intros. unfold v_border. noob_tac. Qed.
+Lemma noob_vmapM : forall A B (f : A -> VM B) l, (forall a, noob (f a)) -> noob (vmapM f l).
+Proof. intros A B f l H. induction l; simpl; noob_tac. Qed.
+Lemma noob_frame_at_level : forall l, noob (frame_at_level l).
+Proof. intros l. apply noob_total. discriminate. Qed.
+Hint Resolve noob_v_opt_int noob_v_border noob_frame_at_level : noob.
+
+Lemma noob_float_fold : forall (g : float -> float -> float) l acc,
+  noob ((fix go (l : list value) (acc : float) : VM float :=
+         match l with [] => vret acc | VNum x :: r => go r (g acc x) | _ => vunsup 219 end) l acc).
+Proof.
+  intros g. induction l; intros acc; [apply noob_vret|].
+  destruct a; try (apply noob_vunsup; reflexivity). apply IHl.
+Qed.
+
+Lemma noob_simple_builtin : forall b args, noob (simple_builtin b args).
+Proof.
+  intros b args. unfold simple_builtin.
+  destruct b; noob_tac.
+  all: try apply noob_float_fold.
+  all: try (apply noob_vmapM; intro; noob_tac).
+  all: try (apply noob_total; intros s c; discriminate).
+  all: try (intros s c E; destruct (metatable_raw _ _); discriminate).
+Qed.
+Hint Resolve noob_simple_builtin : noob.
+
+Lemma noob_ToStringMeta : forall v, noob (ToStringMeta ml v).
+Proof. intros. unfold ToStringMeta. noob_tac. Qed.
+Lemma noob_new_thread : forall f w, noob (new_thread f w).
+Proof. intros. apply noob_total. discriminate. Qed.
+Lemma noob_set_closure_env : forall c env, noob (set_closure_env c env).
+Proof. intros. unfold set_closure_env. noob_tac. Qed.
+Hint Resolve noob_ToStringMeta noob_new_thread noob_set_closure_env : noob.
+
+Lemma noob_gfunction_nc : forall b, noob (gfunction_nc ml b).
+Proof.
+  intro b. unfold gfunction_nc. destruct (is_resume b) eqn:Er; [intros s c E; discriminate|].
+  unfold gfunction. apply noob_bind; [auto with noob|intro args].
+  destruct b; try discriminate; try solve [noob_tac].
+  destruct co; [noob_tac|discriminate].
+Qed.
+
+End NoobHost.
+
+(* for the loop of the cut machine the discipline is a theorem: what remains assumed of the
+   re-entered loop is only that it does not fault itself (the induction on fuel of the run-level
+   statement, which needs the pc invariant) *)
+Theorem wf_step_noob_nc_lemma : forall n cl cf rest inst base,
+  (forall b, noob (mainLoop_nc n b)) ->
+  W.wf_fn (fn_of (cl_proto cl)) = true ->
+  closure_ok cl ->
+  VM.WfFacts.pc_ok (fn_of (cl_proto cl)) (fr_pc cf - 1) ->
+  zth (xp_code (cl_proto cl)) (fr_pc cf - 1) = Some inst ->
+  noob_on (stk (cf :: rest)) (exec_op (mainLoop_nc n) (gfunction_nc (mainLoop_nc n)) cl cf inst base).
+Proof.
+  intros n cl cf rest inst base Hml.
+  apply wf_step_noob_disc_lemma; [exact Hml|apply noob_gfunction_nc; exact Hml|apply mainLoop_nc_disc_lemma].
 Qed.
